@@ -43,7 +43,7 @@ def hdr_sizes(rc):
 
 
 TOY = dict(MaxChunk=6, PadMax=2, Tag=1, SaltLen=1, FixLen=1, EihLen=1, Depth=1, ReqPfx=0, RspPfx=0, AllowSeg="FALSE",
-           FirstCap=4, Two="FALSE", FlushLeftover="TRUE", AddrLens="{1}", Pads="{0,1,2}", PSizes="{0,1,2,3,4}",
+           FirstCap=4, Two="FALSE", FlushLeftover="TRUE", RelayInit="TRUE", AddrLens="{1}", Pads="{0,1,2}", PSizes="{0,1,2,3,4}",
            WSizes="{0,1,6,7}", RSizes="{1,3,7}", SrcCaps="{2,7}", DSizes="{1}", Paths='{"plain","rf","wt"}',
            Writers='{"Ac"}', MaxSent=8, Count="FALSE", MaxW=99, MaxR=99, EMIT="")
 
@@ -62,7 +62,7 @@ def graph_config(k, cfg, kind, big):
     mc, tag, padmax = rc["MaxChunk"], rc["Tag"], rc["PadMax"]
     req, rsp = hdr_sizes(rc)
     c = dict(rc)
-    c.update(Two="FALSE", FlushLeftover="TRUE", Count="TRUE", MaxSent=4 * mc, EMIT="ACTION_CONSTRAINT Emit",
+    c.update(Two="FALSE", FlushLeftover="TRUE", RelayInit="TRUE", Count="TRUE", MaxSent=4 * mc, EMIT="ACTION_CONSTRAINT Emit",
              AddrLens="{7}", Pads=tla_set([0, padmax]), PSizes="{0}", SrcCaps="{1}", DSizes="{1}")
     d = kind[-3:]
     wr = "Ac" if d == "c2s" else "As"
@@ -80,7 +80,7 @@ def graph_config(k, cfg, kind, big):
                  DSizes=tla_set([1, req - 1, req]), Paths='{"plain","wt"}', Writers="{}", MaxW=2, MaxR=3)
     elif kind.startswith("chunk-"):
         # every split of the data into write calls / source reads, read back with one large buffer
-        c.update(PSizes=tla_set([0, 3000] if d == "c2s" else [0]),
+        c.update(PSizes=tla_set([0, 3000] if d == "c2s" and big else [0]),
                  WSizes=tla_set([0, 1, mc - 1, mc, mc + 1, 2 * mc + 1] + ([3 * mc, 70000] if big else [])),
                  RSizes=tla_set([mc + tag]), SrcCaps=tla_set([32768, mc, mc + 1]), DSizes=tla_set([part]),
                  Paths='{"plain","rf","wt"}', Writers='{"%s"}' % wr, MaxW=3 if not big else 4, MaxR=3)
@@ -90,10 +90,12 @@ def graph_config(k, cfg, kind, big):
                  RSizes=tla_set([1, 4096, mc - 1, mc + tag - 1, mc + tag] + ([mc, 70000] if big else [])),
                  DSizes=tla_set([1, part]), Paths='{"plain","wt"}', Writers='{"%s"}' % wr, MaxW=3 if not big else 4, MaxR=4 if not big else 5)
     elif kind.startswith("relay-"):
+        # tunnel-to-tunnel copy at a relay node: A's server tunnel feeds B's client tunnel (up) and back (down);
+        # plain reads before the copy (left-over hand-over), end of stream, the server's first write through the copy
         up = kind == "relay-up"
-        c.update(Two="TRUE", AddrLens="{19}", Pads=tla_set([0, 1]), PSizes=tla_set([0, 2000]), WSizes=tla_set([1, mc, mc + 1]),
-                 RSizes=tla_set([1, mc + tag]), Paths='{"plain","t2t"}', Writers='{"Ac"}' if up else '{"Bs"}',
-                 MaxW=(6 if up else 5) + (1 if big else 0), MaxR=3 if not big else 4)
+        c.update(Two="TRUE", AddrLens="{19}", Pads="{1}", PSizes="{0}", WSizes=tla_set([1, mc + 1] + ([mc] if big else [])),
+                 RSizes=tla_set([1, mc + tag]), DSizes="{}", Paths='{"plain","t2t"}', Writers='{"Ac"}' if up else '{"Bs"}',
+                 MaxW=5 + (1 if big else 0), MaxR=3 if not big else 4)
     else:
         raise vlib.Broken("unknown graph kind " + kind)
     return c
@@ -131,6 +133,7 @@ def replay(v, binary, k, cfg, behs, seed, what, nproc=4, timeout=900):
 
 
 LOCK = threading.Lock()
+ONLY = None   # development: restrict the jobs of a run
 
 
 def cfg_name(cfg):
@@ -206,7 +209,7 @@ def run(tier, seed, replay_file):
         mc, tag, padmax = rc["MaxChunk"], rc["Tag"], rc["PadMax"]
         req, rsp = hdr_sizes(rc)
         c = dict(rc)
-        c.update(Two="TRUE", FlushLeftover="TRUE", Count="TRUE", MaxSent=1 << 21, EMIT="ACTION_CONSTRAINT Emit",
+        c.update(Two="TRUE", FlushLeftover="TRUE", RelayInit="TRUE", Count="TRUE", MaxSent=1 << 21, EMIT="ACTION_CONSTRAINT Emit",
                  AddrLens=tla_set([7, 19, 5, 100, 259]), Pads=tla_set([0, 1, padmax]),
                  PSizes=tla_set([0, 1, padmax - 1, padmax, padmax + 1, mc - 21, mc - 9, mc - 8, mc, 2 * mc + 1, 1 << 20]),
                  WSizes=tla_set([0, 1, 4096, mc - 1, mc, mc + 1, 2 * mc - 1, 2 * mc + 1, 1 << 20]),
@@ -229,13 +232,13 @@ def run(tier, seed, replay_file):
         counts only if the real tunnel reproduces it."""
         rc = real_consts(k, cfg)
         c = dict(rc)
-        c.update(Two="FALSE", FlushLeftover="FALSE", Count="TRUE", MaxSent=100000, EMIT="", AddrLens="{7}", Pads="{0,900}", PSizes="{0}",
+        c.update(Two="FALSE", FlushLeftover="FALSE", RelayInit="TRUE", Count="TRUE", MaxSent=100000, EMIT="", AddrLens="{7}", Pads="{0,900}", PSizes="{0}",
                  WSizes="{5000}", RSizes="{100}", SrcCaps="{1}", DSizes="{1}", Paths='{"plain","wt"}', Writers='{"As"}', MaxW=3, MaxR=3)
         r = run_tlc(c, workers=per, edges=False, heap="4g")
         account(name, r)
         if r.violation not in ("Prefix", "Conservation"):
             raise vlib.Broken("the as-coded variant (FlushLeftover=FALSE) should violate Prefix, TLC says %s" % r.violation)
-        beh = vlib.cex_behaviour(r.trace)
+        beh = vlib.cex_behaviour(r.trace, obs=lambda st: {x: st[x] for x in ("sent", "dlv", "eof", "st")})
         res, out, rcode = vlib.run_driver(binary, "TestReplay", {"behaviours": [beh], "seed": seed, "consts": {"cfg": driver_consts(k, cfg, seed)}}, 300)
         with LOCK:
             res = common.absorb(v, res, out, rcode, "left-over counterexample")
@@ -246,8 +249,32 @@ def run(tier, seed, replay_file):
                                "reproduced by the real tunnel: the left-over is handed over")
             detail[name]["reproduced_on_code"] = bool(res["violations"])
 
+    def relay_cex(name, cfg):
+        """The code as it is (RelayInit = FALSE): a relay that read the first response bytes with Read and then
+        hands the rest to the tunnel copy crashes on the server tunnel's missing write cipher."""
+        rc = real_consts(k, cfg)
+        c = dict(rc)
+        c.update(Two="TRUE", FlushLeftover="TRUE", RelayInit="FALSE", Count="TRUE", MaxSent=100000, EMIT="", AddrLens="{7}", Pads="{900}",
+                 PSizes="{0}", WSizes="{3000}", RSizes="{70000}", SrcCaps="{1}", DSizes="{}", Paths='{"plain","t2t"}', Writers='{"Bs"}',
+                 MaxW=5, MaxR=2)
+        r = run_tlc(c, workers=per, edges=False, heap="4g")
+        account(name, r)
+        if r.violation not in ("Prefix", "OnlyMixedIsBad"):
+            raise vlib.Broken("the as-coded variant (RelayInit=FALSE) should violate Prefix, TLC says %s" % r.violation)
+        beh = vlib.cex_behaviour(r.trace, obs=lambda st: {x: st[x] for x in ("sent", "dlv", "eof", "st")})
+        res, out, rcode = vlib.run_driver(binary, "TestReplay", {"behaviours": [beh], "seed": seed, "consts": {"cfg": driver_consts(k, cfg, seed)}}, 300)
+        with LOCK:
+            res = common.absorb(v, res, out, rcode, "relay first-write counterexample")
+            tot["behaviours"] += 1
+            tot["steps"] += res["steps"]
+            if not res["violations"]:
+                v.notes.append("the TLC counterexample of the as-coded variant (Read on the relay's client tunnel, then tunnel copy into a "
+                               "server tunnel that has not answered) is no longer reproduced by the real tunnels")
+            detail[name]["reproduced_on_code"] = bool(res["violations"])
+
     toy = dict(TOY)
     jobs = []
+    jobs.append(("relay-cex", relay_cex, ("relay-cex", primary)))
     jobs.append(("toy-c2s", design, ("toy-c2s", dict(toy, Writers='{"Ac"}'))))
     jobs.append(("toy-s2c", design, ("toy-s2c", dict(toy, Writers='{"As"}', AllowSeg="TRUE", Depth=0))))
     jobs.append(("leftover-cex", leftover_cex, ("leftover-cex", primary)))
@@ -273,6 +300,8 @@ def run(tier, seed, replay_file):
             jobs.append(("simulate@%d" % ci, simulate, ("simulate@%d" % ci, cfg, 300, 700)))
         jobs.append(("simulate", simulate, ("simulate", primary, 600, 1500)))
 
+    if ONLY:
+        jobs = [j for j in jobs if j[0] in ONLY]
     from concurrent.futures import ThreadPoolExecutor
     with ThreadPoolExecutor(max_workers=par) as ex:
         futs = [(name, ex.submit(fn, *args)) for name, fn, args in jobs]
